@@ -200,7 +200,10 @@ def c02(tier):
                  seg_spec('bytewise-all-N2', N=2, mode='bytewise-all'),
                  seg_spec('head-allcuts-N2', N=2, mode='head-allcuts', head=5),
                  seg_spec('burst-after-hs', N=2, mode='after-hs', big_prefix=16400),
-                 seg_spec('frag-text-L3-allcuts', family=dict(opcode=1, L=3, max_frags=2), mode='frames-allcuts')]
+                 seg_spec('frag-text-L3-allcuts', family=dict(opcode=1, L=3, max_frags=2), mode='frames-allcuts'),
+                 # permessage-deflate negotiated (abstract zlib): RSV1 frames are compressed messages; the reply and the frames in one read vs cut
+                 seg_spec('hs-joined-compressed-N3', N=3, mode='hs-joined-bytewise', compress=True, extra_headers_hex='5365632d576562536f636b65742d457874656e73696f6e733a207065726d6573736167652d6465666c6174650d0a'),
+                 seg_spec('one-cut-anywhere-compressed-N3', N=3, mode='one-cut-anywhere', hs_window=8, compress=True, extra_headers_hex='5365632d576562536f636b65742d457874656e73696f6e733a207065726d6573736167652d6465666c6174650d0a')]
     else:
         specs = [seg_spec('allcuts-N5', N=5, mode='frames-allcuts'),
                  seg_spec('two-cuts-N6', N=6, mode='two-cuts', hs_window=4),
@@ -211,7 +214,9 @@ def c02(tier):
                  seg_spec('head-allcuts-N3', N=3, mode='head-allcuts', head=8),
                  seg_spec('burst-after-hs', N=3, mode='after-hs', big_prefix=16400),
                  seg_spec('burst-after-hs-64k', N=2, mode='after-hs', big_prefix=65400),
-                 seg_spec('frag-text-L4-allcuts', family=dict(opcode=1, L=4, max_frags=3), mode='frames-allcuts')]
+                 seg_spec('frag-text-L4-allcuts', family=dict(opcode=1, L=4, max_frags=3), mode='frames-allcuts'),
+                 seg_spec('hs-joined-compressed-N4', N=4, mode='hs-joined-bytewise', compress=True, extra_headers_hex='5365632d576562536f636b65742d457874656e73696f6e733a207065726d6573736167652d6465666c6174650d0a'),
+                 seg_spec('one-cut-anywhere-compressed-N4', N=4, mode='one-cut-anywhere', hs_window=60, compress=True, extra_headers_hex='5365632d576562536f636b65742d457874656e73696f6e733a207065726d6573736167652d6465666c6174650d0a')]
     return run_property('C02', tier, specs, 'model_checking', 'independence from TCP segmentation',
                         ENV_ASSUMPTIONS + ['reference segmentation = whole stream in one read (lemma mode: p|d1+d2)',
                                            'compressed streams: see C06 (zlib abstracted)'], RECV_FUNCS)
